@@ -65,11 +65,15 @@ def fmt_bits(b):
 
 
 def short(lit):
+    """printable ASCII, whitespace-free abbreviation of a literal (used in signatures)"""
     if isinstance(lit, bytes):
         lit = lit.decode("latin-1")
-    if len(lit) <= 48:
+    crc = zlib.crc32(lit.encode("latin-1"))
+    n = len(lit)
+    lit = "".join(ch if 33 <= ord(ch) <= 126 and ch != "\\" else "\\x%02x" % ord(ch) for ch in lit)
+    if n <= 48:
         return lit
-    return "%s..%s(len%d,crc%08x)" % (lit[:16], lit[-16:], len(lit), zlib.crc32(lit.encode("latin-1")))
+    return "%s..%s(len%d,crc%08x)" % (lit[:16], lit[-16:], n, crc)
 
 
 def read_replay(lit, base, got, allowed):
@@ -256,6 +260,12 @@ class C13:
             nm += n
             distinct |= d
         chk.add(evaluations=len(lits), transitions=len(lits))
+        if part in ("read.dec.sweep", "read.radix") and jobs:
+            for (its, _, tk, _) in (jobs[0], jobs[len(jobs) // 2], jobs[-1]):
+                i = len(its) // 2
+                ex = model.expect(its[i], base or 0)
+                chk.sample(dict(part=part, literal=short(its[i]), result_bits=tk[i],
+                                admissible=None if ex is None else ["%016x" % b for b in ex]), limit=12)
         chk.part(part, literals=len(lits), mismatches=nm, distinct_results=len(distinct),
                  **{"n_" + k: v for k, v in classes.items()})
         for k in classes:
@@ -855,8 +865,10 @@ def main():
                          "exponent fields 0..2046 x mantissa {0,1,2,2^51,2^52-2,2^52-1} x sign")
     if c.want("print.twobit"):
         es = list(range(0, 2047))
-        c.print_families("print.twobit", ["[:twobit [%s]]" % " ".join(map(str, es[i:i + 8])) for i in range(0, len(es), 8)],
-                         "every mantissa with <= 2 bits set x exponent fields 0..2046 x sign")
+        signs = "[0]" if quick else "[0 2147483648]"
+        c.print_families("print.twobit", ["[:twobit [%s] %s]" % (" ".join(map(str, es[i:i + 8])), signs)
+                                          for i in range(0, len(es), 8)],
+                         "every mantissa with <= 2 bits set x exponent fields 0..2046 x sign %s" % ("+" if quick else "+-"))
     if c.want("print.stride"):
         n = 2 ** 20 if quick else 2 ** 21
         c.print_families("print.stride", ["[:stride %d %d]" % (a, a + 2 ** 14) for a in range(0, n, 2 ** 14)],
@@ -915,10 +927,6 @@ def main():
         "syntax: all strings len<=%d over A, <=%d over B/base-arg/parser; decimal exponents -345..310; radix 2..36 "
         "exponents covering 2^+-1100; hex p -1160..1040; printing families complete%s" % (
             5 if quick else 6, 4 if quick else 5, "" if quick else "; float32 sweep: see parts"))
-    for s in (dict(part="read.syntax.A", first=ALPHA_A[0], last=ALPHA_A[-1] * (5 if quick else 6)),
-              dict(part="read.dec.sweep", first="1e-345", middle="9007199254740993E-16", last="-.000" + "7" * 12 + "..e314"),
-              dict(part="print.twobit", first="0000000000000000", last="fff8000000000000 region: e=2046, m=2^51+2^50")):
-        chk.sample(s)
     POOL.close()
     chk.finish()
 
@@ -963,13 +971,13 @@ def _int_parser(self, part, T):
             counts[r[:1]] = counts.get(r[:1], 0) + 1
             if not ok:
                 nbad += 1
+                if nbad > 3:
+                    continue
                 self.chk.violation(sig="%s:%s" % (part, short(tok)),
                                    what="parser token %r gives %s, expected %s" % (tok, r, want),
                                    replay_text="(def r (protect (parse %s)))\n(printf \"%%q\" r)\n(print \"expected %s\")\n" % (
                                        jdn(tok), want if isinstance(want, str) else "number with bits in %s" % (["%016x" % b for b in want],)),
                                    replay_cmd="janet <this file>")
-                if nbad > 5:
-                    break
     chk.add(evaluations=len(toks), transitions=len(toks))
     chk.part(part, tokens=len(toks), mismatches=nbad, **{"result_" + k: v for k, v in counts.items()})
     for k in counts:
